@@ -210,7 +210,7 @@ def make_grid(gspec, a, b):
     raise ValueError(t)
 
 
-def build(cfg, comps, reference=None):
+def build(cfg, comps, reference=None, reuse=None):
     """Build (instance, errorOperator, f) of the real library for a JSON-able cfg.
 
     cfg = {"strategy": standard|dimadapt|dimwise|extend|cell, "a": [...], "b": [...], "grid": {...},
@@ -221,10 +221,14 @@ def build(cfg, comps, reference=None):
     a = np.asarray(cfg["a"], float)
     b = np.asarray(cfg["b"], float)
     d = len(a)
-    f = VecF(comps, a, b)
-    grid = make_grid(cfg["grid"], a, b)
-    ref = None if reference is None else np.asarray(reference, float)
-    op = Integration(f=f, grid=grid, dim=d, reference_solution=ref)
+    if reuse is not None:
+        # a second strategy instance on the SAME operation / integrand objects (as the repository's own tests do)
+        op, f = reuse
+    else:
+        f = VecF(comps, a, b)
+        grid = make_grid(cfg["grid"], a, b)
+        ref = None if reference is None else np.asarray(reference, float)
+        op = Integration(f=f, grid=grid, dim=d, reference_solution=ref)
     norm = cfg.get("norm", "inf")
     norm = np.inf if norm == "inf" else norm
     opts = dict(cfg.get("opts", {}))
